@@ -4,6 +4,9 @@ use super::*;
 #[path = "../common/vutil.rs"]
 mod vutil;
 use vutil::*;
+#[path = "../common/sctp_lean.rs"]
+mod lean;
+use lean::{Rig, next_event, data_chunk, rnd32};
 
 // @h name=vc01_serial_cmp tier=quick timeout=300
 // @fn tsn_gt, ssn_gt
@@ -33,7 +36,7 @@ fn msg(tag: u8) -> Bytes { Bytes::copy_from_slice(&[tag]) }
 
 // @h name=vc01_inbound_stream_perm2 tier=quick timeout=420
 // @fn InboundStream::enqueue, InboundStream::drain_ready
-// @bound 2 messages with consecutive SSNs from a symbolic base (wrap at 65535 included), delivered in either order
+// @bound 2 messages with consecutive SSNs 65534, 65535, 0 and TSNs 2^32-1, 0, 1 (wrap at 65535 included), delivered in either order
 // @oracle the later message is held back until its predecessor arrived; output is the 2 messages in SSN order, each once, payload preserved; next_ssn advanced by 2, nothing left pending
 #[kani::proof]
 #[kani::unwind(4)]
@@ -56,7 +59,7 @@ fn vc01_inbound_stream_perm2() {
 /// duplicate-of-not-yet-delivered; the concatenated output must be exactly base..base+k in order.
 // @h name=vc01_inbound_stream_perm3 tier=thorough timeout=1800
 // @fn InboundStream::enqueue, InboundStream::drain_ready
-// @bound 3 messages with consecutive SSNs from a symbolic base (wrap at 65535 included), delivered in any of the 6 orders
+// @bound 3 messages with consecutive SSNs 65534, 65535, 0 and TSNs 2^32-1, 0, 1 (wrap at 65535 included), delivered in any of the 6 orders
 // @oracle concatenation of the returned batches is exactly the 3 messages in SSN order, each once, payload preserved; nothing is returned before its predecessors arrived
 #[kani::proof]
 #[kani::unwind(6)]
@@ -219,3 +222,193 @@ fn vc01_gap_blocks() {
     leak(b); leak(m);
 }
 
+
+// ---------------------------------------------------------------------------------------
+// receive path on the association object (de-asynced handlers, see common/sctp_rig.json)
+// ---------------------------------------------------------------------------------------
+fn ord_cfg() -> DataChannelConfig {
+    DataChannelConfig { label: String::new(), protocol: String::new(), ordered: true, max_retransmits: None, max_packet_life_time: None, max_payload_size: None, negotiated: Some(1) }
+}
+fn expect_msg(dc: &DataChannel, want: &[u8]) {
+    match next_event(dc) { Some(DataChannelEvent::Message(m)) => { assert!(same(&m[..], want), "delivered message differs from the submitted one"); leak(m); } _ => assert!(false, "expected a delivered message") }
+}
+
+/// one unfragmented DATA chunk with TSN = cum + D on an ordered channel expecting SSN `ssn`
+fn data_step<const D: i32>(ssn: u16) {
+    let rig = Rig::new(false, SctpState::Connected);
+    let dc = rig.add_channel(1, ord_cfg(), DataChannelState::Open);
+    let inner = rig.inner();
+    // concrete TSN base chosen at the 2^32 wrap: with a symbolic base CBMC explores all three arms of handle_data
+    // with their nested drain loops (48 k VCCs, solver out of memory); the serial arithmetic itself is covered for
+    // all values by vc01_serial_cmp
+    let cum: u32 = u32::MAX;
+    inner.cumulative_tsn_ack.store(cum, Ordering::SeqCst);
+    { let mut st = inner.inbound_streams.lock(); let mut is = InboundStream::new(); is.next_ssn = ssn; st.insert(1, is); }
+    let tsn = cum.wrapping_add(D as u32);
+    let pl: [u8; 2] = kani::any();
+    let r = inner.handle_data(0x03, data_chunk(tsn, 1, ssn, DATA_CHANNEL_PPID_BINARY, &pl));
+    assert!(r.is_ok());
+    let after = inner.cumulative_tsn_ack.load(Ordering::SeqCst);
+    if D == 1 {
+        expect_msg(&dc, &pl);
+        assert!(after == tsn, "cumulative TSN did not advance over the delivered chunk");
+    } else {
+        assert!(next_event(&dc).is_none(), "a duplicate / out-of-order chunk was delivered");
+        assert!(after == cum, "cumulative TSN moved without an in-order chunk");
+        if D == 2 { assert!(inner.received_queue.lock().contains_key(&tsn), "out-of-order chunk was not buffered"); }
+    }
+    assert!(next_event(&dc).is_none(), "more than one message delivered for one chunk");
+    kani::cover!(pl[0] == 0xab, "payload byte");
+    leak(r); leak(dc); leak(rig);
+}
+
+// @h name=vc01_data_step_inorder tier=experimental timeout=900
+// @fn SctpInner::handle_data, SctpInner::process_data_payload, InboundStream::enqueue
+// @stub std::time::Instant::now -> fixed instant; std::sync::Weak::upgrade -> sequential
+// @bound established association, one ordered reliable channel expecting SSN 5; cumulative TSN 2^32-1 (the delivered chunk has TSN 0); one unfragmented DATA chunk with TSN = cum + 1, SSN 5, 2 symbolic payload bytes
+// @oracle exactly that message is delivered, unaltered, once; the cumulative point advances by one
+#[kani::proof]
+#[kani::unwind(3)]
+#[kani::stub(std::time::Instant::now, now_stub)]
+#[kani::stub(std::backtrace::Backtrace::capture, bt_stub)]
+#[kani::stub(std::sync::Weak::upgrade, weak_upgrade_seq)]
+fn vc01_data_step_inorder() { data_step::<1>(5) }
+
+// @h name=vc01_data_step_dup tier=experimental timeout=900
+// @fn SctpInner::handle_data
+// @stub std::time::Instant::now -> fixed instant; std::sync::Weak::upgrade -> sequential
+// @bound as vc01_data_step_inorder but TSN = cum (duplicate of the last delivered chunk) and, second instance, TSN = cum - 1
+// @oracle nothing is delivered, the cumulative point does not move
+#[kani::proof]
+#[kani::unwind(3)]
+#[kani::stub(std::time::Instant::now, now_stub)]
+#[kani::stub(std::backtrace::Backtrace::capture, bt_stub)]
+#[kani::stub(std::sync::Weak::upgrade, weak_upgrade_seq)]
+fn vc01_data_step_dup() { if kani::any() { data_step::<0>(5) } else { data_step::<-1>(5) } }
+
+// @h name=vc01_data_step_gap tier=experimental timeout=900
+// @fn SctpInner::handle_data
+// @stub std::time::Instant::now -> fixed instant; std::sync::Weak::upgrade -> sequential
+// @bound as vc01_data_step_inorder but TSN = cum + 2 (one chunk missing)
+// @oracle nothing is delivered yet, the chunk is buffered, the cumulative point does not move
+#[kani::proof]
+#[kani::unwind(3)]
+#[kani::stub(std::time::Instant::now, now_stub)]
+#[kani::stub(std::backtrace::Backtrace::capture, bt_stub)]
+#[kani::stub(std::sync::Weak::upgrade, weak_upgrade_seq)]
+fn vc01_data_step_gap() { data_step::<2>(5) }
+
+// @h name=vc01_data_gap_fill tier=experimental timeout=1200
+// @fn SctpInner::handle_data, SctpInner::process_data_payload
+// @stub std::time::Instant::now -> fixed instant; std::sync::Weak::upgrade -> sequential
+// @bound ordered reliable channel; sender submitted m1 (1 chunk, 1 byte) and m2 (2 fragments of 1 byte); datagram loss/reorder: the two fragments of m2 (TSN cum+2, cum+3) arrive first and are buffered, then m1 (TSN cum+1) fills the gap; cumulative TSN 2^32-2 (the sequence crosses the TSN wrap), symbolic payload bytes, SSN base 65535 (wraps inside the sequence)
+// @oracle nothing is delivered before the gap is filled; afterwards exactly m1 then m2 are delivered, each once, m2 reassembled from both fragments (a buffered chunk keeps its own B/E flags); cumulative TSN = cum+3 and the reorder buffer is empty
+#[kani::proof]
+#[kani::unwind(5)]
+#[kani::stub(std::time::Instant::now, now_stub)]
+#[kani::stub(std::backtrace::Backtrace::capture, bt_stub)]
+#[kani::stub(std::sync::Weak::upgrade, weak_upgrade_seq)]
+fn vc01_data_gap_fill() {
+    let rig = Rig::new(false, SctpState::Connected);
+    let dc = rig.add_channel(1, ord_cfg(), DataChannelState::Open);
+    let inner = rig.inner();
+    let cum: u32 = u32::MAX - 1; let ssn: u16 = 65535; // SSN wrap inside the sequence; the SSN arithmetic itself is covered for all bases by vc01_inbound_stream_*
+    inner.cumulative_tsn_ack.store(cum, Ordering::SeqCst);
+    { let mut st = inner.inbound_streams.lock(); let mut is = InboundStream::new(); is.next_ssn = ssn; st.insert(1, is); }
+    let a: u8 = kani::any(); let b: u8 = kani::any(); let c: u8 = kani::any();
+    let t = |k: u32| cum.wrapping_add(k);
+    assert!(inner.handle_data(0x02, data_chunk(t(2), 1, ssn.wrapping_add(1), DATA_CHANNEL_PPID_BINARY, &[b])).is_ok());
+    assert!(inner.handle_data(0x01, data_chunk(t(3), 1, ssn.wrapping_add(1), DATA_CHANNEL_PPID_BINARY, &[c])).is_ok());
+    assert!(next_event(&dc).is_none(), "delivery ahead of a missing chunk");
+    assert!(inner.cumulative_tsn_ack.load(Ordering::SeqCst) == cum);
+    assert!(inner.handle_data(0x03, data_chunk(t(1), 1, ssn, DATA_CHANNEL_PPID_BINARY, &[a])).is_ok());
+    expect_msg(&dc, &[a]);
+    expect_msg(&dc, &[b, c]);
+    assert!(next_event(&dc).is_none(), "a message was duplicated or fabricated");
+    assert!(inner.cumulative_tsn_ack.load(Ordering::SeqCst) == t(3) && inner.received_queue.lock().is_empty());
+    kani::cover!(a == 1 && b == 2, "payload bytes");
+    leak(dc); leak(rig);
+}
+
+// @h name=vc01_data_empty_message tier=experimental timeout=1200
+// @fn SctpInner::handle_data, SctpInner::process_data_payload, InboundStream::enqueue
+// @stub std::time::Instant::now -> fixed instant; std::sync::Weak::upgrade -> sequential
+// @bound ordered reliable channel; messages "x" (1 symbolic byte), "" (empty, legal: send_data(id, &[])) and "y" arrive in TSN order with consecutive SSNs 65534, 65535, 0 and TSNs 2^32-1, 0, 1
+// @oracle three messages are delivered in order: [x], [], [y]: an empty message is a message, consumes its SSN and does not hold back its successors
+#[kani::proof]
+#[kani::unwind(5)]
+#[kani::stub(std::time::Instant::now, now_stub)]
+#[kani::stub(std::backtrace::Backtrace::capture, bt_stub)]
+#[kani::stub(std::sync::Weak::upgrade, weak_upgrade_seq)]
+fn vc01_data_empty_message() {
+    let rig = Rig::new(false, SctpState::Connected);
+    let dc = rig.add_channel(1, ord_cfg(), DataChannelState::Open);
+    let inner = rig.inner();
+    let cum: u32 = u32::MAX - 1; let ssn: u16 = 65534;
+    inner.cumulative_tsn_ack.store(cum, Ordering::SeqCst);
+    { let mut st = inner.inbound_streams.lock(); let mut is = InboundStream::new(); is.next_ssn = ssn; st.insert(1, is); }
+    let x: u8 = kani::any(); let y: u8 = kani::any();
+    assert!(inner.handle_data(0x03, data_chunk(cum.wrapping_add(1), 1, ssn, DATA_CHANNEL_PPID_BINARY, &[x])).is_ok());
+    assert!(inner.handle_data(0x03, data_chunk(cum.wrapping_add(2), 1, ssn.wrapping_add(1), DATA_CHANNEL_PPID_BINARY, &[])).is_ok());
+    assert!(inner.handle_data(0x03, data_chunk(cum.wrapping_add(3), 1, ssn.wrapping_add(2), DATA_CHANNEL_PPID_BINARY, &[y])).is_ok());
+    expect_msg(&dc, &[x]);
+    expect_msg(&dc, &[]);
+    expect_msg(&dc, &[y]);
+    assert!(next_event(&dc).is_none());
+    kani::cover!(x == 7, "payload byte");
+    leak(dc); leak(rig);
+}
+
+// @h name=vc01_dup_init_established tier=quick timeout=1200
+// @fn SctpInner::handle_init
+// @stub std::time::Instant::now -> fixed instant; stun::random_u32 -> any; std::sync::Weak::upgrade -> sequential
+// @bound established association with symbolic TSN state and tags; a (duplicated / late) INIT chunk with symbolic initiate tag, a_rwnd and initial TSN arrives
+// @oracle the receive point (cumulative TSN), the next TSN to send and both verification tags are unchanged: a stray association-setup packet must not disturb an established association (RFC 4960 §5.2.2)
+#[kani::proof]
+#[kani::unwind(5)]
+#[kani::stub(std::time::Instant::now, now_stub)]
+#[kani::stub(std::backtrace::Backtrace::capture, bt_stub)]
+#[kani::stub(std::sync::Weak::upgrade, weak_upgrade_seq)]
+#[kani::stub(crate::transports::ice::stun::random_u32, rnd32)]
+fn vc01_dup_init_established() {
+    let rig = Rig::new(false, SctpState::Connected);
+    let inner = rig.inner();
+    let cum: u32 = kani::any(); let nxt: u32 = kani::any(); let vt: u32 = kani::any(); let rvt: u32 = kani::any();
+    inner.cumulative_tsn_ack.store(cum, Ordering::SeqCst); inner.next_tsn.store(nxt, Ordering::SeqCst);
+    inner.verification_tag.store(vt, Ordering::SeqCst); inner.remote_verification_tag.store(rvt, Ordering::SeqCst);
+    let mut b = BytesMut::with_capacity(16);
+    b.put_u32(kani::any()); b.put_u32(kani::any()); b.put_u16(10); b.put_u16(10); b.put_u32(kani::any());
+    let r = inner.handle_init(kani::any(), b.freeze());
+    assert!(r.is_ok());
+    assert!(inner.cumulative_tsn_ack.load(Ordering::SeqCst) == cum, "duplicate INIT reset the receive point of an established association");
+    assert!(inner.next_tsn.load(Ordering::SeqCst) == nxt, "duplicate INIT reset the send TSN of an established association");
+    assert!(inner.verification_tag.load(Ordering::SeqCst) == vt && inner.remote_verification_tag.load(Ordering::SeqCst) == rvt, "duplicate INIT replaced the verification tags");
+    assert!(*inner.state.lock() == SctpState::Connected);
+    kani::cover!(true, "handler completed");
+    leak(r); leak(rig);
+}
+
+// @h name=vc01_payload_empty_message tier=experimental timeout=900
+// @fn SctpInner::process_data_payload, InboundStream::enqueue
+// @stub std::time::Instant::now -> fixed instant; std::sync::Weak::upgrade -> sequential
+// @bound ordered reliable channel expecting SSN 65535; the in-order chunks of the messages [x] (1 symbolic byte) and "" (empty: legal, send_data(id, &[])) are processed one after the other
+// @oracle two messages are delivered in order, [x] and then the empty one: an empty message is a message and consumes its SSN (seeded change C01-B)
+#[kani::proof]
+#[kani::unwind(3)]
+#[kani::stub(std::time::Instant::now, now_stub)]
+#[kani::stub(std::backtrace::Backtrace::capture, bt_stub)]
+#[kani::stub(std::sync::Weak::upgrade, weak_upgrade_seq)]
+fn vc01_payload_empty_message() {
+    let rig = Rig::new(false, SctpState::Connected);
+    let dc = rig.add_channel(1, ord_cfg(), DataChannelState::Open);
+    let inner = rig.inner();
+    { let mut st = inner.inbound_streams.lock(); let mut is = InboundStream::new(); is.next_ssn = 65535; st.insert(1, is); }
+    let x: u8 = kani::any();
+    assert!(inner.process_data_payload(0x03, data_chunk(10, 1, 65535, DATA_CHANNEL_PPID_BINARY, &[x])).is_ok());
+    assert!(inner.process_data_payload(0x03, data_chunk(11, 1, 0, DATA_CHANNEL_PPID_BINARY, &[])).is_ok());
+    expect_msg(&dc, &[x]);
+    expect_msg(&dc, &[]);
+    assert!(next_event(&dc).is_none());
+    kani::cover!(x == 7, "payload byte");
+    leak(dc); leak(rig);
+}
